@@ -147,3 +147,10 @@ Theorem C19_device : forall a b,
      device_result (Some a) (Some b) = OpNotRaw).
 Proof. exact device_lemma. Qed.
 Print Assumptions C19_device.
+
+(* an accepted option value takes effect as the LAST value set: whatever was set before, once WEBSOCKET-CHECKORIGIN is
+   (back) on, an upgrade with a foreign Origin is refused; the default is on *)
+Theorem C19_last_value_takes_effect : forall sets, effect_expected (EOrigin (sets ++ [true])) = "refused" /\
+  effect_expected (EOrigin (sets ++ [false])) = "accepted" /\ effect_expected (EOrigin []) = "refused".
+Proof. intro sets. cbn [effect_expected]. rewrite !last_last. auto. Qed.
+Print Assumptions C19_last_value_takes_effect.
